@@ -205,8 +205,10 @@ func coerceType(root *ggql.Root, t sx.S) ggql.Type {
 
 // canonOut describes a coerced value relative to the value it was computed from.
 func floatTime(tv float64) time.Time {
+	// the instant tv seconds after the epoch (no detour through int64 nanoseconds, which wraps around
+	// beyond the year 2262)
 	secs := int64(tv)
-	return time.Unix(0, secs*int64(time.Second)).In(time.UTC).Add(time.Duration((tv - float64(secs)) * float64(time.Second)))
+	return time.Unix(secs, 0).In(time.UTC).Add(time.Duration((tv - float64(secs)) * float64(time.Second)))
 }
 
 var wantTime bool // the type being coerced to is Time (a time text may coincide with the input string)
@@ -300,7 +302,7 @@ func canonOut(out interface{}, in sx.S) sx.S {
 			if t == inl[2].(string) {
 				return sx.L("soi", inl[2])
 			}
-			if z, err := strconv.ParseInt(inl[2].(string), 10, 64); err == nil && t == time.Unix(0, z*int64(time.Second)).In(time.UTC).Format(time.RFC3339Nano) {
+			if z, err := strconv.ParseInt(inl[2].(string), 10, 64); err == nil && t == time.Unix(z, 0).In(time.UTC).Format(time.RFC3339Nano) {
 				return sx.L("timetext", sx.L("secs", inl[2]))
 			}
 		case "b":
@@ -336,7 +338,7 @@ func canonOut(out interface{}, in sx.S) sx.S {
 				return sx.L("timev", sx.L("tin", inl[1]))
 			}
 		case "i":
-			if z, err := strconv.ParseInt(inl[2].(string), 10, 64); err == nil && t.Equal(time.Unix(0, z*int64(time.Second))) {
+			if z, err := strconv.ParseInt(inl[2].(string), 10, 64); err == nil && t.Equal(time.Unix(z, 0)) {
 				return sx.L("timev", sx.L("secs", inl[2]))
 			}
 		case "s":
